@@ -186,6 +186,10 @@ impl ZerokitMerkleTree for PmTree {
         values: I,
     ) -> Result<()> {
         let v = values.into_iter().collect::<Vec<_>>();
+        if v.is_empty() {
+            // pmtree's batch insertion indexes into the (empty) leaf slice: nothing to write
+            return Ok(());
+        }
         self.tree
             .set_range(start, v.clone().into_iter())
             .map_err(|e| Report::msg(e.to_string()))?;
